@@ -116,6 +116,19 @@ mod msgq {
             self.queue.push_back(msg);
         }
     }
+
+    #[cfg(ikatson_librqbit_utp_verif)]
+    impl MsgQueue {
+        pub fn verif_len_bytes(&self) -> usize {
+            self.len_bytes
+        }
+        pub fn verif_capacity(&self) -> usize {
+            self.capacity
+        }
+        pub fn verif_items(&self) -> usize {
+            self.queue.len()
+        }
+    }
 }
 
 use crate::{
@@ -696,6 +709,45 @@ impl OutOfOrderQueue {
             sequence_numbers: consumed_segments,
             bytes: consumed_bytes,
         })
+    }
+}
+
+// Verification hook: read-only snapshot. See src/verif.rs.
+#[cfg(ikatson_librqbit_utp_verif)]
+impl UserRx {
+    pub fn verif_snapshot(&self) -> crate::verif::UserRxSnapshot {
+        let g = self.shared.locked.lock();
+        crate::verif::UserRxSnapshot {
+            queue_len_bytes: g.queue.verif_len_bytes(),
+            queue_capacity: g.queue.verif_capacity(),
+            queue_items: g.queue.verif_items(),
+            reader_dropped: g.reader_dropped,
+            vsock_closed: g.vsock_closed,
+            dispatcher_waker_set: g.dispatcher_waker.is_some(),
+            reader_waker_set: g.reader_waker.is_some(),
+            ooq_len: self.ooq.len,
+            ooq_len_bytes: self.ooq.len_bytes,
+            ooq_filled_front: self.ooq.filled_front,
+            ooq_capacity: self.ooq.capacity,
+            ooq_occupied: self
+                .ooq
+                .data
+                .iter()
+                .enumerate()
+                .filter(|(_, m)| !ooq_slot_is_default(m))
+                .map(|(i, m)| {
+                    (
+                        i,
+                        match m {
+                            OoqMessage::Payload(p) => p.len(),
+                            OoqMessage::Eof => usize::MAX,
+                        },
+                    )
+                })
+                .collect(),
+            max_incoming_payload: self.max_incoming_payload.get(),
+            last_remaining_rx_window: self.last_remaining_rx_window,
+        }
     }
 }
 
